@@ -13,6 +13,7 @@ RULE = ("cases = (mode spelling, day); every day of the enumerated years is "
         "properties on a sample and get_days_in_year_range over year pairs; "
         "every (canonical mode, day) is non-trivial (a different view of the "
         "day is requested) and counted once")
+RUN_REPO_SUITE = True   # thorough tier: repo tests under these monitors
 DECIDING = ["conv.post", "length.post", "range.post", "to_date.post"]
 MIN_EVALS = {"conv.post": 50000, "length.post": 2000, "range.post": 500,
              "to_date.post": 1000}
